@@ -107,7 +107,11 @@ def check(item, tier):
         slist = list(mdp.state_list)
         alist = list(mdp.action_list)
         present = [s for s in range(n) if sl(s) in set(slist)]
-        for pidx, combo in enumerate(product(*[LATTICE[len(spec.acts[s])] for s in range(n)])):
+        lat = dict(LATTICE)
+        if n == 1 or build.has_tiny_probability(spec_item) or n >= 5:
+            e9 = F(1, 10 ** 9)
+            lat[2] = LATTICE[2] + [(1 - e9, e9), (e9, 1 - e9)]       # near-deterministic policies (positive but tiny probabilities)
+        for pidx, combo in enumerate(product(*[lat[len(spec.acts[s])] for s in range(n)])):
             pi = {s: {a: w for a, w in zip(spec.acts[s], combo[s])} for s in range(n)}
             form = FORMS[(fi + pidx) % 3]
             r.count('states')
